@@ -216,6 +216,80 @@ serde_json = "1"
 serde = "1"
 '''
 
+# the well-typed counterparts must also compile where only part of a back end is built: one crate per
+# feature of the four feature-gated back ends, holding what that feature alone offers
+REDUCED = {
+    "verifying": [("display a public key", "k: &Key<{V}, Public>", "let _ = format!(\"{}\", k);"),
+                  ("to_string() a public key", "k: &Key<{V}, Public>", "let _ = k.to_string();"),
+                  ("parse a public key text", "s: &str", "let _ = s.parse::<Key<{V}, Public>>();"),
+                  ("serde-serialise a signed token", "t: &SealedToken<{V}, Public, M>", "let _ = serde_json::to_string(t);"),
+                  ("verify a token", "k: &Key<{V}, Public>, t: SealedToken<{V}, Public, M>", "let _ = t.unseal(k, &[], &nv());"),
+                  ("verify() a token", "k: &Key<{V}, Public>, t: SealedToken<{V}, Public, M>", "let _ = t.verify(k, &nv());")],
+    "decrypting": [("decrypt a token", "k: &Key<{V}, Local>, t: SealedToken<{V}, Local, M>", "let _ = t.unseal(k, &[], &nv());"),
+                   ("decrypt() a token", "k: &Key<{V}, Local>, t: SealedToken<{V}, Local, M>", "let _ = t.decrypt(k, &nv());"),
+                   ("expose a local key", "k: &Key<{V}, Local>", "let _ = k.expose_key().to_string();"),
+                   ("display an encrypted token", "t: &SealedToken<{V}, Local, M>", "let _ = t.to_string();")],
+    "signing": [("sign a token", "k: &Key<{V}, Secret>, u: UnsealedToken<{V}, Public, M>", "let _ = u.seal(k, &[]);"),
+                ("sign() a token", "k: &Key<{V}, Secret>, u: UnsealedToken<{V}, Public, M>", "let _ = u.sign(k);"),
+                ("derive and display the public key", "k: &Key<{V}, Secret>", "let _ = k.public_key().to_string();"),
+                ("expose a secret key", "k: &Key<{V}, Secret>", "let _ = k.expose_key().to_string();")],
+    "encrypting": [("encrypt a token", "k: &Key<{V}, Local>, u: UnsealedToken<{V}, Local, M>", "let _ = u.seal(k, &[]);"),
+                   ("encrypt() a token", "k: &Key<{V}, Local>, u: UnsealedToken<{V}, Local, M>", "let _ = u.encrypt(k);")],
+}
+GATED = [b for b in BACKENDS if b[0] in ("paseto-v1", "paseto-v2", "paseto-v3", "paseto-v4")]
+
+CARGO_REDUCED = '''[package]
+name = "{name}"
+version = "0.0.0"
+edition = "2024"
+publish = false
+[workspace]
+[dependencies]
+paseto-core = {{ path = "/repo/paseto-core", features = ["serde"] }}
+{deps}
+serde_json = "1"
+serde = "1"
+'''
+
+def reduced_twins(sub, report, harness):
+    """Returns the number of programs compiled."""
+    n = 0
+    for feat, entries in REDUCED.items():
+        progs = []
+        for b in GATED:
+            for desc, params, stmt in entries:
+                p = Prog("reduced-build-twin", f"{desc} ({b[0]} built with only `{feat}`)", params.replace("{V}", vty(b)), stmt.replace("{V}", vty(b)), True)
+                p.pid = 900000 + n
+                n += 1
+                progs.append(p)
+        d = os.path.join(TARGET, "c18", f"reduced-{feat}{sub}")
+        os.makedirs(os.path.join(d, "src"), exist_ok=True)
+        deps = "\n".join(f'{b[0]} = {{ path = "/repo/{b[0]}", default-features = false, features = ["{feat}"] }}' for b in GATED)
+        open(os.path.join(d, "Cargo.toml"), "w").write(CARGO_REDUCED.format(name=f"c18-reduced-{feat}", deps=deps))
+        shutil.copy(os.path.join(REPO, "Cargo.lock"), os.path.join(d, "Cargo.lock"))
+        lines = PRELUDE.split("\n")
+        mark = {}
+        for p in progs:
+            lines.append(f"// P{p.pid} [{p.cls}] {p.desc}")
+            lines.append(f"pub fn p{p.pid}({p.params}) {{")
+            lines.append(f"    {p.stmt}")
+            mark[len(lines)] = p
+            lines.append("}")
+        open(os.path.join(d, "src", "main.rs"), "w").write("\n".join(lines) + "\n")
+        rc, errors, dep, stderr = check(d, target=f"target-reduced-{feat}")
+        if dep:
+            harness.append(f"reduced build `{feat}`: cargo check failed outside the generated programs: {dep[:200]}")
+            continue
+        seen = set()
+        for line, code, msg in errors:
+            p = next((mark[l] for l in (line, line + 1, line - 1) if l in mark), None)
+            if p is None:
+                harness.append(f"reduced build `{feat}`: error outside a marked line ({line}): {code} {msg[:100]}")
+            elif p.pid not in seen:
+                seen.add(p.pid)
+                report(f"C18/{p.cls}/correct-program-rejected", f"well-typed program does not compile: {p.desc}: `{p.stmt}` -> {code} {msg[:120]}", {"class": p.cls, "description": p.desc, "stmt": p.stmt, "params": p.params, "expect": "compiles"})
+    return n
+
 def emit(dirname, name, progs):
     d = os.path.join(TARGET, "c18", dirname)
     os.makedirs(os.path.join(d, "src"), exist_ok=True)
@@ -232,8 +306,8 @@ def emit(dirname, name, progs):
     open(os.path.join(d, "src", "main.rs"), "w").write("\n".join(lines) + "\n")
     return d, mark
 
-def check(d):
-    r = run(["cargo", "check", "--offline", "--message-format=json", "--target-dir", os.path.join(TARGET, "c18", "target")], cwd=d)
+def check(d, target="target"):
+    r = run(["cargo", "check", "--offline", "--message-format=json", "--target-dir", os.path.join(TARGET, "c18", target)], cwd=d)
     errors = []
     dep_failure = None
     for line in r.stdout.splitlines():
@@ -275,7 +349,7 @@ def main():
         progs = [p for p in progs if p.cls.startswith(only)]
     if replay is not None:
         progs = [p for p in progs if p.cls == replay["class"] and p.desc == replay["description"]]
-        if not progs:
+        if not progs and replay["class"] != "reduced-build-twin":
             print("INCONCLUSIVE replay: no such program in the catalogue"); sys.exit(2)
     known = load_known()
     acc = [p for p in progs if p.expect]
@@ -330,6 +404,9 @@ def main():
                 report(f"C18/{p.cls}/misuse-compiles", f"forbidden program compiles: {p.desc}: `{p.stmt}`", {"class": p.cls, "description": p.desc, "stmt": p.stmt, "params": p.params, "expect": "rejected"})
             elif not any(c in {"E0603", "E0432", "E0433", "E0405", "E0412", "E0277", "E0407", "E0437", "E0438", "E0046", "E0117"} for c in codes):
                 harness.append(f"P{p.pid} {p.cls}: rejected with unexpected code(s) {codes} (probe defect, not a pass)")
+    n_reduced = 0
+    if only is None and (replay is None or replay.get("class") == "reduced-build-twin"):
+        n_reduced = reduced_twins(sub, report, harness)
     # crate 2: everything predicted to be rejected
     d, mark = emit("reject" + sub, "c18-reject", rej)
     rc, errors, dep, stderr = check(d)
@@ -375,12 +452,12 @@ def main():
             sys.exit(2)
         finish(as_prop, tier, violations, known_hits, f"{as_prop} {tier} compile probes: {len(progs)} programs ({len(rej)} predicted rejected, {len(acc)} predicted to compile), {len(violations)} violation(s), {time.time()-t0:.1f}s")
     write_evidence("C18", tier, "exploration", {
-        "evaluations": len(progs),
-        "distinct_nontrivial": len(rej) + sum(1 for p in acc if p.cls in ("seal", "unseal", "wrap-pie", "seal-key", "unseal-key")),
-        "rule": "generated catalogue: product of (back-end crate of the key) x (back-end crate of the token) x purpose x key kind {Local, Public, Secret, PkePublic, PkeSecret} x operation {seal, unseal, sign/encrypt/verify/decrypt aliases (+_with_aad), wrap_pie (by kind of wrapped and wrapping key), password_wrap, seal-key, unseal-key, Display / to_string / Debug / serde / field access / AsRef / == on keys, every key kind against a list of trait bounds through which key material could leak or be compared implicitly (Display, ToString, Debug, LowerHex, Serialize, Hash, PartialEq, PartialOrd, AsRef<[u8]>, Borrow<[u8]>, Deref<Target=[u8]>, Copy, Default; Clone allowed), Display / to_string / serde on unsealed tokens (also through Deref, deref coercion and method auto-deref onto printable claims), private fields of sealed tokens, Debug and conversion traits on sealed tokens, purpose / kind / version coercions, secret keys as footer / claims, naming or implementing the sealing supertrait under ten candidate paths and implementing KeyType / Purpose downstream}; each program is one function whose marked statement carries the (mis)use; a type model written from the property text predicts compile / reject; rustc is the ground truth: every predicted-reject program must have an error on its marked line (codes E0277/E0308/E0599/E0616/E0609/E0369), every predicted-compile program (the well-typed twins) must compile. Non-trivial iff predicted reject, or a well-typed twin of a key/token operation; distinct by program text",
+        "evaluations": len(progs) + n_reduced,
+        "distinct_nontrivial": n_reduced + len(rej) + sum(1 for p in acc if p.cls in ("seal", "unseal", "wrap-pie", "seal-key", "unseal-key")),
+        "rule": "generated catalogue: product of (back-end crate of the key) x (back-end crate of the token) x purpose x key kind {Local, Public, Secret, PkePublic, PkeSecret} x operation {seal, unseal, sign/encrypt/verify/decrypt aliases (+_with_aad), wrap_pie (by kind of wrapped and wrapping key), password_wrap, seal-key, unseal-key, Display / to_string / Debug / serde / field access / AsRef / == on keys, every key kind against a list of trait bounds through which key material could leak or be compared implicitly (Display, ToString, Debug, LowerHex, Serialize, Hash, PartialEq, PartialOrd, AsRef<[u8]>, Borrow<[u8]>, Deref<Target=[u8]>, Copy, Default; Clone allowed), Display / to_string / serde on unsealed tokens (also through Deref, deref coercion and method auto-deref onto printable claims), private fields of sealed tokens, Debug and conversion traits on sealed tokens, purpose / kind / version coercions, secret keys as footer / claims, naming or implementing the sealing supertrait under ten candidate paths and implementing KeyType / Purpose downstream}; the well-typed counterparts of each operation are additionally compiled against paseto-v1..v4 built with only the one feature that offers them (verifying / decrypting / signing / encrypting); each program is one function whose marked statement carries the (mis)use; a type model written from the property text predicts compile / reject; rustc is the ground truth: every predicted-reject program must have an error on its marked line (codes E0277/E0308/E0599/E0616/E0609/E0369), every predicted-compile program (the well-typed twins) must compile. Non-trivial iff predicted reject, or a well-typed twin of a key/token operation; distinct by program text",
         "samples": samples,
         "class_histogram": classes,
-        "programs": len(progs), "predicted_reject": len(rej), "predicted_compile": len(acc),
+        "programs": len(progs) + n_reduced, "predicted_reject": len(rej), "predicted_compile": len(acc) + n_reduced, "compiled_against_single_feature_builds": n_reduced,
         "exhaustive": True,
         "harness_errors": harness,
     }, ["rustc's type checker is the ground truth", "programs are functions with the misused values as parameters (no constructors needed), all in two crates so that one cargo check decides each class"], time.time() - t0, len(violations))
@@ -388,7 +465,7 @@ def main():
         for h in harness[:10]:
             print(f"INCONCLUSIVE harness error: {h}")
         print(f"C18 {tier}: {len(progs)} programs"); sys.exit(2)
-    finish("C18", tier, violations, known_hits, f"C18 {tier}: {len(progs)} programs ({len(rej)} predicted rejected, {len(acc)} predicted to compile), {len(violations)} violation(s), {time.time()-t0:.1f}s")
+    finish("C18", tier, violations, known_hits, f"C18 {tier}: {len(progs) + n_reduced} programs ({len(rej)} predicted rejected, {len(acc) + n_reduced} predicted to compile, of which {n_reduced} against single-feature builds), {len(violations)} violation(s), {time.time()-t0:.1f}s")
 
 if __name__ == "__main__":
     main()
